@@ -37,6 +37,20 @@ def check(run, project):
     from ..roles import MarshalRoles as _MR10
     from . import c03 as _c03
     _c03.r4(_RV10(run, "R4", "T10"), _MR10(project))
+    # T11 (= C11-A6 = C12-P2): a prefix decodes to a prefix of the SAME events - events compare by their type objects, and the
+    # type of an encrypted parameter area is synthesised: its memo must never evict (else the whole decode and the prefix
+    # decode hold two different classes)
+    from ..callgraph import CallGraph as _CG
+    from .c11 import memo_carriers as _mc
+    from .c12 import check_memo as _cm
+    from .. import ctx as _ctx
+    _L = _ctx.layout(project)
+    _cg = _CG(project)
+    _ref = _cg.get("tpmstream.spec.commands.params_common", "TPMS_PARAMS.encrypted")
+    if _ref is not None:
+        _ks = sum(1 for c_ in _L.all.values() if c_.is_subclass_of(_L.TPMS_PARAMS) and c_ is not _L.TPMS_PARAMS)
+        for c_ in _mc(_cg, _ref) or ():
+            _cm(run, c_, _ks, rule="T11")
     F = pump.analyse(project)
     roles, mod, fn = F.roles, F.roles.mod, F.roles.pump
     run.explanation = "typestate fixpoint over the pump's CFG + who-may-use rules for the source iterator and buffer parameters"
